@@ -1,6 +1,8 @@
 import Ark.Proofs.Table
 import Ark.Props.C11
 import Ark.Props.C01World
+import Ark.Props.C01Hist
+import Ark.Props.C01Struct
 import Ark.Proofs.GenBridge
 
 namespace Ark.Props.C01
@@ -73,5 +75,34 @@ theorem remove_frame : type_of% @Ark.Props.C01World.remove_frame := @Ark.Props.C
 
 /-- FRAME: writing values of e changes only those components of e -/
 theorem write_frame : type_of% @Ark.Props.C01World.write_frame := @Ark.Props.C01World.write_frame
+
+
+/-! ### Operation level, histories of any length (fragment: creation without components, removal,
+    Set; no observers): the joint world invariant holds after every history; each operation changes
+    only its own entity. -/
+
+/-- after ANY history of NewEntity/RemoveEntity/Set the joint invariant (index ↔ rows, pool free list, freed IDs unindexed, live IDs indexed) holds -/
+theorem hist_world_invariant : type_of% @Ark.Props.C01Hist.reach_winv := @Ark.Props.C01Hist.reach_winv
+
+/-- NewEntity: returns the pool handle, keeps the invariant, the new entity is alive with no components, every other entity is unchanged -/
+theorem newEntity_spec : type_of% @Ark.newEntity0_spec_partial := @Ark.newEntity0_spec_partial
+
+/-- RemoveEntity of a live handle: keeps the invariant, the handle is dead and unindexed, every other entity is unchanged -/
+theorem removeEntity_spec : type_of% @Ark.removeEntity_spec_partial := @Ark.removeEntity_spec_partial
+
+/-- writing values keeps the invariant and changes only the written components of that entity -/
+theorem set_spec : type_of% @Ark.writeVals_winv := @Ark.writeVals_winv
+
+/-! ### Structure: archetypes ↔ tables (I4, I9, I10) preserved by archetype and table creation;
+    the table an added component set leads to. -/
+
+/-- a new world satisfies the structural invariant -/
+theorem struct_init : type_of% @Ark.Props.C01Struct.sinv_init := @Ark.Props.C01Struct.sinv_init
+
+/-- adding components finds or creates the table of exactly the enlarged component set, in another table than the old one, leaving all existing rows and the entity index untouched -/
+theorem struct_findOrCreateTableAdd : type_of% @Ark.SInv.findOrCreateTableAdd_spec := @Ark.SInv.findOrCreateTableAdd_spec
+
+/-- adding a component that is already present is rejected without effect -/
+theorem struct_add_rejects_present : type_of% @Ark.Props.C01Struct.findOrCreateTableAdd_rejects := @Ark.Props.C01Struct.findOrCreateTableAdd_rejects
 
 end Ark.Props.C01
